@@ -34,11 +34,12 @@ ASSUMPTIONS = [
   "optimality is judged through the cost gap to the float64 optimum of MJWarp's own rows, scaled by meaninertia*max(1,nv) "
   "like the solver's tolerance test; allowance K*tolerance (K=30 Newton, 1000 CG: CG stops on 'improvement<tolerance', "
   "MuJoCo's CG at the same tolerance leaves gaps of the same size) + the float32 gradient-evaluation floor",
-  "MuJoCo comparison only under the gating rule (same row counts, contacts matched to 2e-5 in position/distance and 5e-5 "
+  "MuJoCo comparison only under the gating rule (same row counts, contacts matched to 2e-5 in position/distance and 2e-5 "
   "in frame, no MuJoCo warning, structure stable under the +-2ulp probe); allowance K*tolerance + 50^2 * measured gap of "
   "MuJoCo's own optimum under the probe (a gap is quadratic in the perturbation)",
   "rows with an identically zero Jacobian are left out of the cost (constants up to 1e17 with D=1/mjMINVAL); worlds with a "
   "LIVE row at D>=1e12 (invweight0==0: Hessian condition >=1e15, not representable in float32) are tallied, not judged",
+  "worlds whose Hessian M + J^T D J (at qacc_smooth) has condition number > 1e8 are tallied, not judged",
   "float32 floor: Jaref/Ma are accumulated from the start point of the solve, so the round-off terms use max(|qacc|, "
   "|warmstart|, |qacc_smooth|) (a hostile warmstart of 1e4 leaves 1e4*eps32 in jar for the whole solve)",
 ]
@@ -48,8 +49,9 @@ K_TOL = {"Newton": 30.0, "CG": 1000.0}
 C_FORCE = 64.0  # float32 allowance (in eps32 * magnitude of the terms summed) for efc.force
 C_GRADNOISE = 8.0  # float32 gradient-evaluation floor multiplier (enters the gap squared)
 GATE_POS = 2e-5  # contact position / distance agreement required for the MuJoCo certificate
-GATE_FRAME = 5e-5
-ROW_REL = 5e-5  # float32-level row differences tolerated by the MuJoCo certificate (C05 judges the rows themselves)
+GATE_FRAME = 2e-5
+ROW_REL = 2e-5  # float32-level row differences tolerated by the MuJoCo certificate (C05 judges the rows themselves)
+COND_MAX = 1e8  # worlds whose Hessian condition number exceeds this are not judged (float32 cannot factorise them)
 SMOOTH_REL = 1e-4  # float32 evaluation allowance for qfrc_smooth / M qacc inside the MuJoCo certificate
 
 BASE = dict(
@@ -391,6 +393,17 @@ def run_case(case):
         # float32 cannot represent -- a degenerate model, not a solver observation
         rec.count("worlds_not_judged:D=1/mjMINVAL_on_live_row")
         continue
+      try:
+        ev = np.linalg.eigvalsh(E.grad_cost(P, P["qacc_smooth"], want_hess=True)[5])
+        cond = float(ev[-1] / ev[0]) if ev[0] > 0 else np.inf
+      except np.linalg.LinAlgError:
+        cond = np.inf
+      if not (cond < COND_MAX):
+        # the Newton Hessian M + J^T D J (at qacc_smooth) has a condition number beyond what float32 can factorise
+        # (eps32^-1 ~ 1e7): stalls / NaNs there are precision limits of the representation, tallied but not judged
+        rec.count("worlds_not_judged:hessian_condition>1e8")
+        continue
+      rec.worst("info:log10_hessian_condition/8", np.log10(max(cond, 1.0)) / 8)
       start = prev_qacc[w] if p else (None if warm_disabled else states[w]["qacc_warmstart"])
       nv0 = len(rec.violations)
       res = certificate_i(rec, P, int(ovf[w]), int(niter[w]), solver, tag, ctx, start=start)
